@@ -52,6 +52,13 @@ class UserFunction:
 
     def _set_input_args_for_function(self):
         f_args = inspect.getfullargspec(self.fun).args
+        # getfullargspec also lists the already bound first parameter (self/cls) of
+        # bound methods and of objects with a __call__ method; it is not an argument
+        # of the call and must not be asked for
+        if inspect.ismethod(self.fun) or inspect.ismethod(
+            getattr(self.fun, "__call__", None)
+        ):
+            f_args = f_args[1:]
 
         # we check that the function defines all needed parameters
         if (
